@@ -453,6 +453,11 @@ def main(argv):
                 agg["harness_ok"] &= r["harness_ok"]
                 agg["coq_ok"] &= r["coq_ok"]
                 agg["cov"].update({"%s@%s" % (k, s): v for k, v in r["cov"].items()})
+            # direct observations attributed by the harness to a known finding count only while that finding is open
+            for lab, items in list(r["direct_known"].items()):
+                if lab not in open_labels:
+                    r["direct"] += [{"label_not_an_open_finding": lab, "observation": it} for it in items]
+                    del r["direct_known"][lab]
             unc = uncovered(r, open_labels)
             if unc or r["direct"]:
                 break
